@@ -319,7 +319,9 @@ def run_shard(spec, acc):
         world = None
         try:
             world = World(layout=layout, queue_mode=mode,
-                          seed=rng.getrandbits(30))
+                          seed=rng.getrandbits(30),
+                          settings={'always_create_integration_pull_'
+                                    'requests': rng.random() < 0.4})
             world._queue_order = []
 
             def on_job(rec, world=world):
